@@ -252,10 +252,10 @@ class OptionAlphabet:
     """long options of a real parser, read off the parser objects"""
     STR_VALUES = ["out/plot.pdf", "results.zip", "a_b.json", "run1/log.txt",
                   "map.yaml", "traj_ref.txt", "fig.png", "table.csv"]
-    INT_VALUES = ["0", "1", "5", "500", "12", "1000"]
+    INT_VALUES = ["0", "1", "5", "500", "12", "1000", "+7", "007"]
     NEG_INT_VALUES = ["-1", "-3", "-10"]
     FLOAT_VALUES = ["0.5", "5", "1e-3", "2.5e2", "0", "100.0", "0.01", "3",
-                    "1.25"]
+                    "1.25", ".5", "5.", "1e+2", "+2.5", "1.4e+09", "2E3"]
     NEG_FLOAT_VALUES = ["-0.5", "-1", "-.25", "-10.75"]
 
     def __init__(self, app, sub):
